@@ -1302,3 +1302,143 @@ Proof.
 Qed.
 
 End WholeRun.
+
+(* ================================================================== restart semantics along a whole run *)
+Section RunSemantics.
+Variable T : Type.
+Variable N : ConvCtrl.num T.
+
+Definition att0 : attempt T := Attempt [] [] [].
+
+Lemma nth_firstn {A} (l : list A) n k d : k < n -> nth k (firstn n l) d = nth k l d.
+Proof.
+  revert n k; induction l as [|a l IH]; intros [|n] [|k] H; simpl; auto; try lia.
+  apply IH. lia.
+Qed.
+
+Lemma run_blocks_head c script size g trs o :
+  run_blocks N c script size g = (trs, o) -> 0 < length trs ->
+  bt_pre (nth 0 trs bt0) = active_part size g.
+Proof.
+  destruct script as [|a rest]; simpl; intros H Hl.
+  - inversion H; subst; simpl in Hl; lia.
+  - repeat (match type of H with
+            | context [match ?x with Some _ => _ | None => _ end] => destruct x
+            | context [if ?x then _ else _] => destruct x
+            | context [let '(_, _) := ?x in _] => destruct x
+            end); inversion H; subst; reflexivity.
+Qed.
+
+(* consecutive block attempts of a run: the later one starts where the theorem about next_block says *)
+Theorem run_blocks_restart_semantics c pre script :
+  order_ok c pre -> forall size g trs o k,
+  wf size g -> script_ok (length (g_riars g)) script ->
+  run_blocks N c script size g = (trs, o) -> S k < length trs ->
+  let b := nth k trs bt0 in
+  let b' := nth (S k) trs bt0 in
+  let a := nth k script att0 in
+  let n := length (bt_post b) in
+  match first_true (map (@s_restart T) (bt_post b)) with
+  | Some j =>
+      (forall i, i < j -> nth i (map (@s_restart T) (bt_post b)) true = false) /\
+      nth 0 (g_times (bt_pre b')) (n0 N) = nth j (g_times (bt_pre b)) (n0 N) /\
+      bt_next b = nth j (a_u0s a) (-1)%Z
+  | None =>
+      nth 0 (g_times (bt_pre b')) (n0 N) =
+        nadd N (nth (n - 1) (g_times (bt_pre b)) (n0 N)) (nth (n - 1) (g_dts (bt_pre b)) (n0 N)) /\
+      bt_next b = nth (n - 1) (a_uends a) (-1)%Z
+  end.
+Proof.
+  intros Ho. induction script as [|a rest IH]; intros size g trs o k Hwf Hsc Hrun Hk.
+  - simpl in Hrun. inversion Hrun; subst. simpl in Hk. lia.
+  - destruct Hwf as (Hs0 & Hs1 & Hl1 & Hl2). simpl in Hrun.
+    destruct (run_passes N c (firstn size (g_riars g)) (firstn size (g_dts g))
+                (map (firstn size) (a_passes a)) (repeat (sstate0 T) size)) as [ss|] eqn:Erp.
+    2:{ inversion Hrun; subst. simpl in Hk. lia. }
+    assert (Hss : length ss = size).
+    { eapply (run_passes_length N c pre); eauto; try (rewrite firstn_length; lia).
+      - intros p Hp. apply in_map_iff in Hp. destruct Hp as (p0 & <- & Hp0).
+        rewrite firstn_length. specialize (Hsc a (or_introl eq_refl) p0 Hp0). lia.
+      - apply repeat_length. }
+    set (bo := next_block N c size g ss (a_u0s a) (a_uends a)) in *.
+    destruct (negb (bo_prefix_ok bo)); [inversion Hrun; subst; simpl in Hk; lia|].
+    destruct (bo_active bo =? 0) eqn:Eact; [inversion Hrun; subst; simpl in Hk; lia|].
+    destruct (run_blocks N c rest (bo_active bo) (bo_state bo)) as [trs' o'] eqn:Erest.
+    inversion Hrun; subst trs o. clear Hrun.
+    apply Nat.eqb_neq in Eact.
+    pose proof (next_block_wf N c size g ss (a_u0s a) (a_uends a) (conj Hs0 (conj Hs1 (conj Hl1 Hl2)))) as Hwf'.
+    cbv zeta in Hwf'. fold bo in Hwf'. destruct Hwf' as (Hw1 & Hw2 & Hw3).
+    assert (Hlen' : length (g_riars (bo_state bo)) = length (g_riars g)).
+    { unfold bo, next_block. destruct (first_true (map (@s_restart T) ss)); cbv zeta; simpl;
+        unfold riar_update; apply riar_fold_length. }
+    destruct k as [|k'].
+    + (* the first pair: this block and the head of the rest *)
+      cbv zeta. simpl nth.
+      rewrite (run_blocks_head c rest (bo_active bo) (bo_state bo) trs' o' Erest) by (simpl in Hk; lia).
+      simpl bt_pre. simpl bt_post. simpl bt_next.
+      assert (Ht0 : nth 0 (g_times (active_part (bo_active bo) (bo_state bo))) (n0 N)
+                    = nth 0 (g_times (bo_state bo)) (n0 N)).
+      { simpl. apply nth_firstn. lia. }
+      rewrite Ht0.
+      destruct (first_true (map (@s_restart T) ss)) as [j|] eqn:E.
+      * destruct (next_block_restart N c size g ss (a_u0s a) (a_uends a) j E) as (H1 & H2 & H3 & H4 & H5).
+        fold bo in H3, H4, H5.
+        destruct (first_true_Some _ _ E) as (Hj & _ & _). rewrite map_length in Hj.
+        split; [exact H1|]. split; [|exact H4].
+        rewrite H5 by lia. simpl. symmetry. apply nth_firstn. lia.
+      * destruct (next_block_accept N c size g ss (a_u0s a) (a_uends a) E) as (H1 & H2 & H3 & H4).
+        fold bo in H2, H3, H4. rewrite Hss. split; [|exact H3].
+        rewrite H4 by lia. simpl. rewrite !nth_firstn by lia. reflexivity.
+    + (* later pairs: induction *)
+      cbv zeta. simpl nth.
+      apply (IH (bo_active bo) (bo_state bo) trs' o' k'); auto.
+      * repeat split; auto; lia.
+      * rewrite Hlen'. intros a' Ha'. apply Hsc. right; auto.
+      * simpl in Hk. lia.
+Qed.
+
+End RunSemantics.
+
+Section RunSemantics2.
+Variable T : Type.
+Variable N : ConvCtrl.num T.
+
+Theorem run_restart_semantics c pre t0 np script trs o k :
+  order_ok c pre -> script_ok np script ->
+  run N c t0 np script = (trs, o) -> S k < length trs ->
+  let b := nth k trs bt0 in
+  let b' := nth (S k) trs bt0 in
+  let a := nth k script (att0 T) in
+  let n := length (bt_post b) in
+  match first_true (map (@s_restart T) (bt_post b)) with
+  | Some j =>
+      (forall i, i < j -> nth i (map (@s_restart T) (bt_post b)) true = false) /\
+      nth 0 (g_times (bt_pre b')) (n0 N) = nth j (g_times (bt_pre b)) (n0 N) /\
+      bt_next b = nth j (a_u0s a) (-1)%Z
+  | None =>
+      nth 0 (g_times (bt_pre b')) (n0 N) =
+        nadd N (nth (n - 1) (g_times (bt_pre b)) (n0 N)) (nth (n - 1) (g_dts (bt_pre b)) (n0 N)) /\
+      bt_next b = nth (n - 1) (a_uends a) (-1)%Z
+  end.
+Proof.
+  intros Ho Hsc Hrun Hk. unfold run in Hrun.
+  set (g := init_state N c t0 np) in *.
+  set (act := map _ (g_times g)) in *.
+  destruct (negb (forallb negb (skipn (true_prefix act) act))); [inversion Hrun; subst; simpl in Hk; lia|].
+  destruct (true_prefix act =? 0) eqn:Ek; [inversion Hrun; subst; simpl in Hk; lia|].
+  apply Nat.eqb_neq in Ek.
+  assert (Hle : true_prefix act <= np).
+  { eapply Nat.le_trans; [apply true_prefix_le|]. unfold act. rewrite map_length. unfold g, init_state. simpl.
+    rewrite init_times_length. lia. }
+  apply (run_blocks_restart_semantics T N c pre script Ho (true_prefix act) g trs o k); auto.
+  - apply init_wf; lia.
+  - unfold g, init_state. simpl. rewrite repeat_length. exact Hsc.
+Qed.
+
+End RunSemantics2.
+
+(* the aliasing between the per-step calls of BasicRestartingNonMPI.prepare_next_block, made visible:
+   3 steps with counters 0, 2, 5, steps 1 and 2 restarted.  The calls in turn give 1, 6, 5; updating
+   all counters from a snapshot (as the MPI variant does) would give 3, 6, 0. *)
+Example counter_aliasing : riar_update 3 [false; true; true] [0; 2; 5] = [1; 6; 5].
+Proof. reflexivity. Qed.
